@@ -976,7 +976,7 @@ def _splice(res, op, cfg, docs, step, V, guarded):
                         continue        # (a '#' may be a concatenation whose pieces an implementation resolves against later @strings)
                 if type(x) is type(y) and isinstance(x, (M.Entry, M.String, M.Preamble, M.ExplicitComment, M.ImplicitComment)) \
                         and not isinstance(unwrap_dup(y), M.ParsingFailedBlock):
-                    from ..fingerprint import fingerprint as _fp
+                    from ..fingerprint import public_fingerprint as _fp
                     if _fp(x) != _fp(y):
                         V("C04", "prefix", f"default-stack/{type(x).__name__}", step,
                           f"block {i} of the well-formed prefix, parsed with the default stack, changed when text was appended "
